@@ -16,7 +16,8 @@ Events:  go (start, or continue, until the marker or the END sentinel) / run (to
          cbw(t) (run to END; the marker callback itself patches byte t with vm.set_mem on its first arrival and returns True) /
          arm(t) (the next executions of S1 store the toggled value of target byte t: a GUEST write) /
          hw(t) (vm.set_mem of the toggled value of target byte t: the documented HOST write path).
-Targets: first / middle / last byte of T1 and of U1 (and the one-byte T2, U2 in the thorough tier); every alternative byte
+Targets: first / middle / last byte of T1 and of U1, the last byte of the block `top` (the displacement of JMP nxt, which is
+the last byte of the whole translated range while `nxt` is not translated yet), and the one-byte T2, U2 in the thorough tier; every alternative byte
 keeps the instruction length (ADD<->SUB EAX, other immediates, ADD ECX -> IMUL EAX,ECX / ADD EBX, INC<->DEC).
 Seeds: cold, stopped at nxt in iteration 1 (block `top` translated, `nxt` not), stopped at nxt in iteration 2 (everything
 translated), warm (a complete run done) - so writes hit translated instructions of the running block, of the block about
@@ -78,11 +79,13 @@ TARGETS = {
     "u1f": ("U1", 0, 0x69, "next-block:first-byte"),     # ADD ECX, imm32 -> IMUL EAX, ECX, imm32
     "u1m": ("U1", 1, 0xC3, "next-block:middle-byte"),    # ... ECX -> EBX
     "u1l": ("U1", 5, 0x15, "next-block:last-byte"),
+    "jl": ("JN", 1, 0x06, "same-block:last-byte-of-the-block"),  # JMP nxt -> JMP U2 (skips U1 and the marker)
     "t2": ("T2", 0, 0x4B, "same-block:one-byte-instruction"),   # INC EBX -> DEC EBX
     "u2": ("U2", 0, 0x4E, "next-block:one-byte-instruction"),   # INC ESI -> DEC ESI
 }
-QUICK_TARGETS = ["t1f", "t1m", "t1l", "u1f", "u1m", "u1l"]
+QUICK_TARGETS = ["t1f", "t1m", "t1l", "u1f", "u1m", "u1l", "jl"]
 CBW_QUICK = ["t1l", "u1f"]
+CBW_THOROUGH = ["t1f", "t1l", "u1f", "u1m", "u2"]
 ALL_TARGETS = QUICK_TARGETS + ["t2", "u2"]
 _cfg = {"quick": True}
 _P = {}
@@ -94,7 +97,7 @@ def P():
         code, labels, offs = jitx.assemble_chained("x86_32", SRC, CODE)
         top, nxt = labels["top"], labels["nxt"]
         i_top, i_nxt = offs.index(top), offs.index(nxt)
-        ins = {"S1": offs[i_top], "T1": offs[i_top + 1], "T2": offs[i_top + 2], "U1": offs[i_nxt], "U2": offs[i_nxt + 1]}
+        ins = {"S1": offs[i_top], "T1": offs[i_top + 1], "T2": offs[i_top + 2], "JN": offs[i_top + 3], "U1": offs[i_nxt], "U2": offs[i_nxt + 1]}
         expected = bytes.fromhex("bd02000000eb00" "8817" "0504030201" "43" "eb00" "81c188776655" "46" "4d" "75ec" "c3")
         if code != expected:
             raise RuntimeError("C22: unexpected encoding of the fixed program: %s" % code.hex())
@@ -225,6 +228,8 @@ def make(seed):
     st.nev = 0
     st.gos = 0
     st.trailing_writes = 0
+    st.ran = False          # a go/run/cbw event happened after the seed prefix
+    st.in_seed = True
 
     def marker(j):
         st.marks += 1
@@ -242,6 +247,7 @@ def make(seed):
         setattr(jit.cpu, r, v)
     for ev in pre:
         apply(st, tuple(ev))
+    st.in_seed = False
     return st
 
 
@@ -263,10 +269,12 @@ def events(st):
         if st.ref.phase == "idle":
             evs.append(("run",))
             if st.trailing_writes == 0:
-                for t in (CBW_QUICK if quick else targets):
+                for t in (CBW_QUICK if quick else CBW_THOROUGH):
                     evs.append(("cbw", t))
-    if st.trailing_writes >= (1 if quick else 2):
-        return evs                   # writes are only interesting when a run follows: bound the write bursts
+    if st.trailing_writes >= (1 if quick else 2) or st.ran:
+        # writes are only interesting when a run follows: histories are  seed ; <= 1 (quick) / 2 (thorough) writes ; runs
+        # (a write after a partial run is what the half-translated / fully-translated seeds are for)
+        return evs
     # a guest store still to come in this run? (iteration 2 has passed S1 already)
     store_ahead = st.ref.phase == "idle" or st.ref.stops < 2
     for t in targets:
@@ -324,6 +332,8 @@ def apply(st, ev):
     # go / run / cbw (run to END; the marker callback patches byte t at its first arrival and lets the run go on)
     st.gos += 1
     st.trailing_writes = 0
+    if not st.in_seed:
+        st.ran = True
     cont = ref.phase == "stopped"
     st.passthrough = k in ("run", "cbw")
     st.ended = False
@@ -396,7 +406,7 @@ def canon(st):
     ref = st.ref
     return (st.backend, st.maxline, bytes(ref.mem), ref.scratch, ref.phase, ref.stops if ref.phase == "stopped" else 0,
             tuple(ref.regs[r] for r in GPR) if ref.phase == "stopped" else (ref.regs["EDI"], ref.regs["EDX"]),
-            tuple(sorted(st.jit.jit.offset_to_jitted_func.keys())), min(st.gos, 4), st.trailing_writes, st.broken and st.nev)
+            tuple(sorted(st.jit.jit.offset_to_jitted_func.keys())), min(st.gos, 4), st.trailing_writes, st.ran, st.broken and st.nev)
 
 
 def outcome(st, ev):
@@ -462,7 +472,8 @@ def _gcc_jobs(quick):
     mls = sorted({ml for be, ml in configs if be == "gcc"})
     for combo, img in _images(quick):
         if 50 in mls:
-            for start, end in ((CODE, p["top"]), (p["top"], p["nxt"]), (p["ins"]["T1"], p["nxt"]), (p["nxt"], offs[-1]), (offs[-1], None)):
+            for start, end in ((CODE, p["top"]), (p["top"], p["nxt"]), (p["ins"]["T1"], p["nxt"]), (p["nxt"], offs[-1]), (p["ins"]["U2"], offs[-1]),
+                               (offs[-1], None)):
                 key = (start, img[start - CODE:(end - CODE) if end else None])
                 jobs.setdefault(key, ("x86_32", img, CODE, start, (end,) if end else (), 50))
         if 1 in mls:
